@@ -11,6 +11,11 @@ for m in repo.all_modules():
     t = alpha.record(m)
     import hashlib
     t["__digest__"] = hashlib.sha1(m.src.encode("utf-8")).hexdigest()
+    import ast as _ast
+    t["__top__"] = sorted(set(n.id for st in m.tree.body if isinstance(st, (_ast.Assign, _ast.AnnAssign, _ast.AugAssign)) for n in _ast.walk(st)
+                              if isinstance(n, _ast.Name) and isinstance(n.ctx, _ast.Store)))
+    t["__classtop__"] = dict((c.name, sorted(set(n.id for st in c.body if isinstance(st, (_ast.Assign, _ast.AnnAssign)) for tg in (st.targets if isinstance(st, _ast.Assign) else [st.target])
+                                                  for n in _ast.walk(tg) if isinstance(n, _ast.Name)))) for c in m.tree.body if isinstance(c, _ast.ClassDef))
     out[m.name] = t
 os.makedirs("/verif/pinned", exist_ok=True)
 json.dump(out, open("/verif/pinned/locals.json", "w"), sort_keys=True, separators=(",", ":"))
